@@ -128,8 +128,10 @@ var c18Names = []string{"General", "Mac Stuff", "a", "caf\x8e", "With:Colon", "N
 func genC18(rng *rand.Rand, c *Case) {
 	c.Cfg["policy"] = 3
 	// the operator reloads the configuration (SIGHUP / admin API) while requests are in flight
-	c.Cfg["reloads"] = 40 * rng.Intn(2)
-	c.Cfg["reload_delay"] = rng.Intn(60)
+	c.Cfg["reloads"] = rng.Intn(2)
+	if c.Cfg["reloads"] == 1 {
+		c.Cfg["policy"] = rng.Intn(3)
+	}
 	c.Cfg["posterlen"] = []int{1, 12, 31, 200, 255}[rng.Intn(5)]
 	n := 6 + rng.Intn(30)
 	for i := 0; i < n; i++ {
@@ -316,6 +318,9 @@ func runC18(w *World) {
 					b[i] = byte(0x20 + orng.Intn(0xd0))
 				}
 				return string(b)
+			}
+			if cfg["reloads"] == 1 && op.K != "restart" && op.K != "stale" {
+				w.ReloadDuring(op.N[1] % 48)
 			}
 			switch op.K {
 			case "bundle", "category":
@@ -523,7 +528,6 @@ func runC18(w *World) {
 			}
 		}
 	})
-	w.StartOperator(w.Case.Cfg["reloads"], w.Case.Cfg["reload_delay"])
 	w.Sim.Run()
 }
 
